@@ -519,8 +519,9 @@ pub fn run(cfg: &Cfg, trim: bool) -> (&'static str, Report, String, String) {
     rep.merge(par_for(cfg, nrand, |i, r| {
         let mut rng = Rng::new(cfg.seed.wrapping_mul(7_919).wrapping_add(i as u64));
         let al: &[&str] = if rng.chance(1, 2) { &["a", "b"] } else { &["a", "b", "ñ"] };
-        let hl = cfg.by(12, 64, 64);
-        let n = random_string(&mut rng, al, 8);
+        // one in eight haystacks is long (block-wise search refactors only show beyond 32/64 bytes)
+        let hl = if i % 8 == 7 { cfg.by(40, 300, 300) } else { cfg.by(12, 64, 64) };
+        let n = random_string(&mut rng, al, if i % 16 == 15 { 40 } else { 8 });
         // plant the needle (or a near miss) to make hits frequent
         let mut h = random_string(&mut rng, al, hl);
         if rng.chance(2, 3) && !n.is_empty() {
